@@ -33,13 +33,21 @@ type runpyOut struct {
 }
 
 func runOne(in runpyIn) (res runpyOut) {
+	ctx := py.NewContext(py.DefaultContextOpts())
+	defer ctx.Close()
+	return runIn(ctx, in)
+}
+
+func runOneIn(ctx py.Context, src string) runpyOut { return runIn(ctx, runpyIn{Src: src}) }
+
+var runSeq int
+
+func runIn(ctx py.Context, in runpyIn) (res runpyOut) {
 	defer func() {
 		if r := recover(); r != nil {
 			res.Panic = strings.ReplaceAll(fmt.Sprint(r), "\n", " ")
 		}
 	}()
-	ctx := py.NewContext(py.DefaultContextOpts())
-	defer ctx.Close()
 	var sb strings.Builder
 	write := py.MustNewMethod("write", func(self py.Object, arg py.Object) (py.Object, error) {
 		s, err := py.Str(arg)
@@ -49,7 +57,8 @@ func runOne(in runpyIn) (res runpyOut) {
 		sb.WriteString(string(s.(py.String)))
 		return py.None, nil
 	}, 0, "")
-	outMod, err := ctx.ModuleInit(&py.ModuleImpl{Info: py.ModuleInfo{Name: "verif_stdout"}, Methods: []*py.Method{write}})
+	runSeq++
+	outMod, err := ctx.ModuleInit(&py.ModuleImpl{Info: py.ModuleInfo{Name: fmt.Sprintf("verif_stdout%d", runSeq)}, Methods: []*py.Method{write}})
 	if err != nil {
 		res.Err = "SetupError"
 		return
